@@ -77,8 +77,13 @@ def gen(r):
     feed = []
     i = 0
     while i < len(stream):
-        how = r.choices(['add', 'update-iter', 'update-list', 'update-map', 'update-kw'], [50, 10, 10, 12, 6])[0]
-        if how == 'add':
+        how = r.choices(['add', 'update-iter', 'update-list', 'update-map', 'update-kw', 'update-fails'], [50, 10, 10, 12, 6, 2])[0]
+        if how == 'update-fails':
+            m = r.randint(0, 6)
+            j = r.randint(0, m)
+            feed.append([how, stream[i:i + m], j])
+            i += m          # the keys after the failure point are simply never added
+        elif how == 'add':
             feed.append(['add', stream[i]])
             i += 1
         elif how in ('update-iter', 'update-list'):
@@ -247,6 +252,31 @@ def check(c, st):
                     total += n
                     for _ in range(n):
                         ref_add(k)
+            elif how == 'update-fails':
+                # the caller's iterable raises after j keys: the additions made so far (some prefix) are additions,
+                # total says how many; everything must still add up
+                j = min(f[2], len(f[1]))
+
+                def failing(keys=f[1], j=j):
+                    for n_, k_ in enumerate(keys):
+                        if n_ >= j:
+                            break
+                        yield k_
+                    raise ValueError('iterable failed')
+                try:
+                    tc.update(failing())
+                except ValueError:
+                    pass
+                else:
+                    return ('raised:update-fails:swallowed', 'the error raised by the iterable did not reach the caller')
+                delta = tc.total - total
+                if not 0 <= delta <= j:
+                    return ('total:via-update-fails', 'total moved by %d after an update that failed after %d keys' % (delta, j))
+                for k in f[1][:delta]:
+                    exact[k] += 1
+                    ref_add(k)
+                total += delta
+                st.count('failed_updates')
             elif how == 'update-map-kw':
                 m = {k: n for k, n in f[1]}
                 kwm = {k: n for k, n in f[2]}
